@@ -30,7 +30,7 @@ def run_one(desc_path, out_path, workdir):
             steps.append("ok")
         except BaseException as e:  # noqa
             steps.append(f"exc:{type(e).__name__}:{str(e)[:200]}")
-            if st["s"] in ("render", "to_code", "cli_render"):
+            if st["s"] in ("render", "to_code", "cli_render", "export"):
                 sess.skip_failed_render(e)
             else:
                 sess.pc += 1
